@@ -353,3 +353,231 @@ def split_identity(rng, cj):
     else:
         tgt["parent"] = {"uuid": g.uid(), "sound_events": [], "features": [], "parent": None}
     return out
+
+
+# ----------------------------------------------------------------------------- unusual but legitimate construction
+HOWS = ["plain", "subclass", "validate", "validate_json", "copy_deep", "copy_shallow", "tuples"]
+_SUBS = {}
+
+
+def _is_data_model(x):
+    from pydantic import BaseModel
+    return isinstance(x, BaseModel) and type(x).__module__.startswith("soundevent.data")
+
+
+_KEEP = ("Term", "TimeStamp", "TimeInterval", "Point", "LineString", "Polygon", "BoundingBox", "MultiPoint",
+         "MultiLineString", "MultiPolygon")
+
+
+def _rebuild(x, memo, cls_of, seq_as_tuple=False):
+    """the same object graph (sharing preserved) with every data object re-created through its constructor as an
+    instance of `cls_of(its class)`; lists under `Sequence[...]` fields optionally given as tuples"""
+    import collections.abc
+    import typing
+    if isinstance(x, (list, tuple)):
+        return type(x)(_rebuild(v, memo, cls_of, seq_as_tuple) for v in x)
+    if not _is_data_model(x) or type(x).__name__ in _KEEP:
+        return x
+    if id(x) in memo:
+        return memo[id(x)]
+    kw = {}
+    for name, f in type(x).model_fields.items():
+        v = _rebuild(getattr(x, name), memo, cls_of, seq_as_tuple)
+        if seq_as_tuple and isinstance(v, list):
+            ann = f.annotation
+            if typing.get_origin(ann) in (collections.abc.Sequence, typing.Sequence):
+                v = tuple(v)
+        kw[name] = v
+    y = cls_of(type(x))(**kw)
+    memo[id(x)] = y
+    return y
+
+
+def _user_subclass(cls):
+    if cls not in _SUBS:
+        _SUBS[cls] = type("Lab" + cls.__name__, (cls,), {"__module__": "lab.models"})
+    return _SUBS[cls]
+
+
+def construct(obj, how):
+    """the collection `obj` (built by the constructors, sub-objects shared by reference) as a user could equally well
+    have obtained it:
+      subclass       every data object is an instance of a user-defined subclass of its class (class LabProject(AnnotationProject))
+      validate       built from plain dicts by `model_validate` (equal content, nothing shared)
+      validate_json  built from JSON text by `model_validate_json`
+      copy_deep      `model_copy(deep=True)`;   copy_shallow  `model_copy()`
+      tuples         `Sequence[...]` fields given as tuples"""
+    if how in (None, "plain"):
+        return obj
+    if how == "subclass":
+        return _rebuild(obj, {}, _user_subclass)
+    if how == "tuples":
+        return _rebuild(obj, {}, lambda c: c, seq_as_tuple=True)
+    if how == "validate":
+        return type(obj).model_validate(obj.model_dump())
+    if how == "validate_json":
+        return type(obj).model_validate_json(obj.model_dump_json())
+    if how == "copy_deep":
+        return obj.model_copy(deep=True)
+    if how == "copy_shallow":
+        return obj.model_copy()
+    raise ValueError(how)
+
+
+def coherent_with(seen, cj):
+    """do all objects of `cj` that carry a uuid seen before (in `seen`: uuid -> content) have the content seen before?
+    (then the Python objects of the earlier collection can be *shared* with this one); records the new ones"""
+    import json
+    ok = True
+    new = {}
+
+    def walk(x):
+        nonlocal ok
+        if isinstance(x, dict):
+            if "uuid" in x:
+                k = (tuple(sorted(x)), x["uuid"])
+                s = json.dumps(x, sort_keys=True)
+                if seen.get(k, s) != s or new.get(k, s) != s:
+                    ok = False
+                new[k] = s
+            for v in x.values():
+                walk(v)
+        elif isinstance(x, list):
+            for v in x:
+                walk(v)
+    walk(cj)
+    if ok:
+        seen.update(new)
+    return ok
+
+
+# ----------------------------------------------------------------------------- more corners (HISTORIES.md)
+def cross_kind_uuids(cj):
+    """the same collection with identifiers *shared across kinds*: every clip carries the uuid of its recording, every
+    sound event annotation / prediction the uuid of its sound event, every sequence annotation / prediction the uuid of
+    its sequence (the lists of a document are per kind, so this is legitimate).  None when two objects of one kind
+    would end up with one uuid."""
+    ren = {}
+
+    def plan(x):
+        if isinstance(x, dict):
+            ks = set(x)
+            tgt = None
+            if "start_time" in ks and "recording" in ks:
+                tgt = ("clip", x["recording"]["uuid"])
+            elif "sound_event" in ks and isinstance(x["sound_event"], dict):
+                tgt = ("sea" if "created_on" in ks else "sep", x["sound_event"]["uuid"])
+            elif "sequence" in ks and isinstance(x["sequence"], dict):
+                tgt = ("sqa" if "created_on" in ks else "sqp", x["sequence"]["uuid"])
+            if tgt is not None:
+                ren.setdefault((tgt[0], x["uuid"]), tgt[1])
+            for v in x.values():
+                plan(v)
+        elif isinstance(x, list):
+            for v in x:
+                plan(v)
+    plan(cj)
+    by_kind = {}
+    for (kind, _old), new in ren.items():
+        by_kind.setdefault(kind, []).append(new)
+    if any(len(v) != len(set(v)) for v in by_kind.values()):
+        return None
+
+    def walk(x):
+        if isinstance(x, dict):
+            y = {k: walk(v) for k, v in x.items()}
+            ks = set(y)
+            kind = None
+            if "start_time" in ks and "recording" in ks:
+                kind = "clip"
+            elif "sound_event" in ks and isinstance(y["sound_event"], dict):
+                kind = "sea" if "created_on" in ks else "sep"
+            elif "sequence" in ks and isinstance(y["sequence"], dict):
+                kind = "sqa" if "created_on" in ks else "sqp"
+            if kind is not None and (kind, y["uuid"]) in ren:
+                y["uuid"] = ren[(kind, y["uuid"])]
+            return y
+        if isinstance(x, list):
+            return [walk(v) for v in x]
+        return x
+    return walk(cj)
+
+
+def large_case(rng):
+    """sizes where an implementation could switch strategy: > 1024 distinct tags, > 256 users, > 64 recordings"""
+    t = Tree(rng, full=True)
+    recs = [t.recording(owners=[t.user() for _ in range(4)], tags=[t.tag() for _ in range(18)], notes=[]) for _ in range(66)]
+    return {"collection": t.wrap("dataset", recordings=recs), "audio_dir": None, "label": "large"}
+
+
+def mutate_json(cj, mut):
+    """the collection after the in-place modification `mut` of one shared object (every occurrence changes)"""
+    def walk(x):
+        if isinstance(x, dict):
+            y = {k: walk(v) for k, v in x.items()}
+            if y.get("uuid") == mut["uuid"]:
+                if mut["what"] == "add_owner" and _kind_of(y) == "recording":
+                    y["owners"] = y["owners"] + [mut["user"]]
+                elif mut["what"] == "add_tag" and _kind_of(y) == "recording":
+                    y["tags"] = y["tags"] + [mut["tag"]]
+                elif mut["what"] == "set_parent" and _kind_of(y) == "sequence":
+                    y["parent"] = mut["parent"]
+            return y
+        if isinstance(x, list):
+            return [walk(v) for v in x]
+        return x
+    return walk(cj)
+
+
+def pick_mutation(rng, cj):
+    """an in-place modification applicable to some shared object of the collection (None if there is none)"""
+    recs, roots = [], []
+
+    def find(x):
+        if isinstance(x, dict):
+            k = _kind_of(x)
+            if k == "recording":
+                recs.append(x["uuid"])
+            if k == "sequence" and x.get("parent") is None:
+                roots.append(x["uuid"])
+            for v in x.values():
+                find(v)
+        elif isinstance(x, list):
+            for v in x:
+                find(v)
+    find(cj)
+    g = aoefgen.Gen(rng, size=0.3)
+    opts = []
+    if recs:
+        r = rng.choice(sorted(set(recs)))
+        opts.append({"what": "add_owner", "uuid": r, "user": g.user(), "style": rng.choice(["append", "assign"])})
+        opts.append({"what": "add_tag", "uuid": r, "tag": {"key": "added", "value": g.uid()[:8]},
+                     "style": rng.choice(["append", "assign"])})
+    if roots:
+        s = rng.choice(sorted(set(roots)))
+        parent = {"uuid": g.uid(), "sound_events": [], "features": [], "parent": None}
+        # a sequence that is someone's parent inside the collection keeps its place: only the root gets a parent
+        opts.append({"what": "set_parent", "uuid": s, "parent": parent, "style": "assign"})
+    return rng.choice(opts) if opts else None
+
+
+def apply_mutation(builder, mut):
+    """the same modification on the live Python object the builder shares between the steps of a history"""
+    if mut["what"] in ("add_owner", "add_tag"):
+        obj = builder.cache.get(("recording", mut["uuid"]))
+        if obj is None:
+            return False
+        new = builder.user(mut["user"]) if mut["what"] == "add_owner" else builder.tag(mut["tag"])
+        field = "owners" if mut["what"] == "add_owner" else "tags"
+        if mut["style"] == "append":
+            getattr(obj, field).append(new)
+        else:
+            setattr(obj, field, list(getattr(obj, field)) + [new])
+        return True
+    if mut["what"] == "set_parent":
+        obj = builder.cache.get(("sequence", mut["uuid"]))
+        if obj is None:
+            return False
+        obj.parent = builder.sequence(mut["parent"])
+        return True
+    return False
